@@ -166,14 +166,26 @@ Print Assumptions c07_unbanned_is_health_checked.
 
 (** A replica that breaks while executing a statement is banned with the matching reason; a
     primary is not. *)
-Theorem c07_exec_fail_bans : forall c bl a k now, In a (servers c) -> a_role a = Replica ->
-  find_ban a (step c bl (ExecFail a k now)) = Some (reason_of k, now).
+Theorem c07_exec_fail_bans : forall c bl a k now g, In a (servers c) -> a_role a = Replica ->
+  find_ban a (step c bl (ExecFail a k now g)) = Some (reason_of k, now).
 Proof. exact exec_fail_bans. Qed.
 Print Assumptions c07_exec_fail_bans.
 
-Theorem c07_exec_fail_primary : forall c bl a k now, a_role a = Primary -> step c bl (ExecFail a k now) = bl.
+Theorem c07_exec_fail_primary : forall c bl a k now g, a_role a = Primary -> step c bl (ExecFail a k now g) = bl.
 Proof. exact exec_fail_primary. Qed.
 Print Assumptions c07_exec_fail_primary.
+
+(** The ban after a failure at statement time does not depend on the fate of the client that sent
+    the statement (still connected, closed, reset): same ban list, in any history. *)
+Theorem c07_exec_fail_independent_of_client : forall c bl a k now g1 g2,
+  step c bl (ExecFail a k now g1) = step c bl (ExecFail a k now g2).
+Proof. exact exec_fail_independent_of_client. Qed.
+Print Assumptions c07_exec_fail_independent_of_client.
+
+Theorem c07_run_independent_of_client : forall c ops bl a k now g1 g2 ops',
+  run c bl (ops ++ ExecFail a k now g1 :: ops') = run c bl (ops ++ ExecFail a k now g2 :: ops').
+Proof. exact run_independent_of_client. Qed.
+Print Assumptions c07_run_independent_of_client.
 
 (** "Detected within the configured timeouts" (partial: a table, see Model.v): with a non-zero
     statement_timeout every server-facing await of a client task outside the recorded class
@@ -295,7 +307,7 @@ Proof. vm_compute. reflexivity. Qed.
 
 (** a statement failure on a replica bans it, re-banning refreshes reason and time *)
 Example ex_exec_fail :
-  run C3 [] [ExecFail R1 KRecv 100; ExecFail R1 KStmtTimeout 130] = [(R1, (StatementTimeout, 130))].
+  run C3 [] [ExecFail R1 KRecv 100 false; ExecFail R1 KStmtTimeout 130 true] = [(R1, (StatementTimeout, 130))].
 Proof. vm_compute. reflexivity. Qed.
 
 (** UNBAN *)
